@@ -478,6 +478,26 @@ def r7_locators(c, facts):
         else:
             c.bad(R, '%s::is_valid:verdict-from:%s' % (lname, ','.join(calls)), '%s decides from %s: an import can be accepted although the file is gone (or rejected although it exists)' % (q, calls), **inst)
     c.floor(R, 'Loader::is_valid implementations', n, 3)
+    # the file system's own verdict: the file `read_file` would read (read_to_string follows symbolic links) exists
+    m = 0
+    for fn in sorted(facts.fns.values(), key=lambda f: f.qname):
+        if not fn.mir or not ((fn.d.get('impl_trait') or '').endswith('FileSystem') and fn.d.get('assoc_name') == 'is_valid'):
+            continue
+        m += 1
+        names = set()
+        for g in [fn] + list(facts.closures_of(fn)):
+            if g.mir:
+                names |= {P.strip(callee_of(t)['def']).split('::')[-1] for b, t in g.calls() if callee_of(t)}
+        nofollow = sorted(names & {'symlink_metadata', 'is_symlink', 'read_link'})
+        asks = sorted(names & {'exists', 'try_exists', 'is_file', 'metadata', 'open'})
+        who = (fn.d.get('impl_self') or fn.qname).split('::')[-1]
+        if nofollow:
+            c.bad(R, '%s::is_valid:does-not-follow-links:%s' % (who, ','.join(nofollow)), '%s::is_valid looks at the directory entry itself (%s) while read_file follows symbolic links: a module that is a symbolic link can be read but is reported as a missing import' % (who, ', '.join(nofollow)))
+        elif not asks:
+            c.bad(R, '%s::is_valid:verdict-not-from-disk' % who, '%s::is_valid no longer asks the file system whether the path exists (calls %s)' % (who, sorted(names)))
+        else:
+            c.ok(R, {fn.qname: 'asks the file system (%s), following links like read_file' % ', '.join(asks)})
+    c.floor(R, 'FileSystem::is_valid implementations', m, 1)
 
 
 def run(c, facts):
